@@ -740,10 +740,10 @@ Lemma px_add_record_route_veq must t m : veq m (px_add_record_route must t m).
 Proof. unfold px_add_record_route. destruct (_ && _)%bool; [apply veq_refl|apply add_record_route_veq]. Qed.
 
 (* the Via entry the proxy pushes for the listener [t] *)
-Definition own_via (e : env) (t : stransport) : via_param :=
-  via_set_param (s2b "branch") (e_branch e) (create_via_param (t_proto t) (t_addr t) (t_port t)).
+Definition own_via (branch : bytes) (t : stransport) : via_param :=
+  via_set_param (s2b "branch") branch (create_via_param (t_proto t) (t_addr t) (t_port t)).
 Lemma pushed_view e must t m :
-  via_hdrs (px_add_record_route must t (px_add_via e t m)) = Some [own_via e t] :: via_hdrs m.
+  via_hdrs (px_add_record_route must t (px_add_via e t m)) = Some [own_via (e_branch e) t] :: via_hdrs m.
 Proof.
   destruct (px_add_record_route_veq must t (px_add_via e t m)) as (_ & _ & H). rewrite H.
   unfold px_add_via. apply add_via_view.
@@ -751,22 +751,22 @@ Qed.
 
 (* an output of the proxy carrying a message whose Via view is [vh], possibly beneath the
    proxy's own entry (pushed when the next hop was learned, or towards a backend) *)
-Definition relayed_as (e : env) (vh : list (option (list via_param))) (o : output) : Prop :=
+Definition relayed_as (br : bytes) (vh : list (option (list via_param))) (o : output) : Prop :=
   match fst o with
   | DDial _ _ _ => snd o = []
   | _ => exists m', snd o = write_message m' /\
-                    (via_hdrs m' = vh \/ exists t, via_hdrs m' = Some [own_via e t] :: vh)
+                    (via_hdrs m' = vh \/ exists t, via_hdrs m' = Some [own_via br t] :: vh)
   end.
 
-Lemma out_is_relayed e vh m o :
-  (via_hdrs m = vh \/ exists t, via_hdrs m = Some [own_via e t] :: vh) -> out_is m o -> relayed_as e vh o.
+Lemma out_is_relayed br vh m o :
+  (via_hdrs m = vh \/ exists t, via_hdrs m = Some [own_via br t] :: vh) -> out_is m o -> relayed_as br vh o.
 Proof. unfold out_is, relayed_as. intros H. destruct (fst o); intros Ho; try exact Ho; exists m; split; assumption. Qed.
 
 Lemma send_to_backend_outs e m x :
-  exists outs, x_outs (fst (send_to_backend e m x)) = x_outs x ++ outs /\ Forall (relayed_as e (via_hdrs m)) outs /\
+  exists outs, x_outs (fst (send_to_backend e m x)) = x_outs x ++ outs /\ Forall (relayed_as (e_branch e) (via_hdrs m)) outs /\
                x_conns (fst (send_to_backend e m x)) = x_conns x.
 Proof.
-  assert (NIL : exists outs, x_outs x = x_outs x ++ outs /\ Forall (relayed_as e (via_hdrs m)) outs /\ x_conns x = x_conns x).
+  assert (NIL : exists outs, x_outs x = x_outs x ++ outs /\ Forall (relayed_as (e_branch e) (via_hdrs m)) outs /\ x_conns x = x_conns x).
   { exists []. split; [symmetry; apply app_nil_r|split; [constructor|reflexivity]]. }
   unfold send_to_backend. destruct (negb (ps_has_rr (x_p x))); [exact NIL|].
   destruct (first_transport (e_lc e)) as [t0|]; [|exact NIL].
@@ -775,10 +775,10 @@ Proof.
   set (pb := match r with Ok v => v | _ => (x_p x, None) end). destruct pb as [p1 ob].
   set (b := match ob with Some b => b | None => BRR end).
   set (m2 := px_add_record_route _ t0 (px_add_via e t0 m1)).
-  assert (V2 : via_hdrs m2 = Some [own_via e t0] :: via_hdrs m).
+  assert (V2 : via_hdrs m2 = Some [own_via (e_branch e) t0] :: via_hdrs m).
   { subst m2. rewrite pushed_view. destruct V as (_ & _ & ->). reflexivity. }
   destruct (backend_send b (write_message m2) p1) as [[p2 outs] ok] eqn:EB.
-  assert (F : Forall (relayed_as e (via_hdrs m)) outs).
+  assert (F : Forall (relayed_as (e_branch e) (via_hdrs m)) outs).
   { destruct (backend_send_outs _ _ _ _ _ _ EB) as [->|(ip & port & ->)]; [constructor|].
     constructor; [|constructor]. unfold relayed_as. cbn. exists m2. split; [reflexivity|]. right. exists t0. exact V2. }
   destruct ok.
@@ -788,20 +788,20 @@ Qed.
 
 Lemma handle_request_outs e from m x : is_request m = true ->
   exists outs, x_outs (fst (handle_message e from m x)) = x_outs x ++ outs /\
-               Forall (relayed_as e (via_hdrs m)) outs.
+               Forall (relayed_as (e_branch e) (via_hdrs m)) outs.
 Proof.
   intros Hq. unfold handle_message. rewrite Hq.
   pose proof (vpres_next_request_hop (c_keep_next_hop (e_cfg e)) (route_table_of (e_cfg e)) m) as V.
   destruct (next_request_hop _ _ m) as [m1 r]. cbn [fst] in V. destruct V as (_ & _ & V).
   assert (BK : exists outs, x_outs (fst (if is_my_message (new_my_name (c_name (e_cfg e))) from m1
                                           then send_to_backend e m1 x else (x, m1))) = x_outs x ++ outs /\
-                            Forall (relayed_as e (via_hdrs m)) outs).
+                            Forall (relayed_as (e_branch e) (via_hdrs m)) outs).
   { destruct (is_my_message _ from m1).
     - destruct (send_to_backend_outs e m1 x) as (outs & H1 & H2 & _). exists outs. rewrite V in H2. split; assumption.
     - exists []. split; [symmetry; apply app_nil_r|constructor]. }
   destruct r as [[[host port] tr]| |]; try exact BK.
   set (m2 := match alookup host (x_learned x) with Some t => _ | None => m1 end).
-  assert (V2 : via_hdrs m2 = via_hdrs m \/ exists t, via_hdrs m2 = Some [own_via e t] :: via_hdrs m).
+  assert (V2 : via_hdrs m2 = via_hdrs m \/ exists t, via_hdrs m2 = Some [own_via (e_branch e) t] :: via_hdrs m).
   { subst m2. destruct (alookup host (x_learned x)) as [t|].
     - right. exists t. rewrite pushed_view, V. reflexivity.
     - left. exact V. }
@@ -819,7 +819,7 @@ Theorem C07_pipeline : forall e peer port from rs tcp m0 x x',
   is_request m0 = true ->
   process_message e peer port from rs tcp m0 x = Ok x' ->
   exists outs, x_outs x' = x_outs x ++ outs /\
-               Forall (relayed_as e (stamp_hdrs rs peer port (via_hdrs m0))) outs.
+               Forall (relayed_as (e_branch e) (stamp_hdrs rs peer port (via_hdrs m0))) outs.
 Proof.
   intros e peer port from rs tcp m0 x x' Hq. unfold process_message.
   set (LP := if (is_request m0 && negb (amem peer (ps_backends (x_p x))))%bool then _ else (m0, x_learned x)).
@@ -863,3 +863,443 @@ Proof.
   cbn [x_outs] in H1. exists outs. split; [exact H1|].
   destruct V as (_ & _ & V). rewrite V, V2b in H2. exact H2.
 Qed.
+
+(* ====================================================================== Part 5: wiring *)
+(* startProxy, repaired argument order: every constructor receives !no-received *)
+Theorem C07_wiring : forall lc,
+  item_rs_of true lc = negb (lc_no_received lc) /\
+  pa_received_support (wire_proxy lc) = negb (lc_no_received lc).
+Proof. intros lc. split; reflexivity. Qed.
+
+(* ... and before the repair the listeners were given defRoute (an unexported field of the
+   YAML record: false for every configuration file) *)
+Theorem C07_wiring_legacy : forall lc, item_rs_of false lc = lc_def_route lc.
+Proof. reflexivity. Qed.
+
+(* the receiving transports of a step: UDP listener and accepted connections read e_item_rs *)
+Lemma mk_env_item_rs fx c li lc now br :
+  e_item_rs (mk_env fx c (item_rs_of (fx_wiring fx)) li lc now br) = item_rs_of (fx_wiring fx) lc.
+Proof. reflexivity. Qed.
+
+(* the TCP connections: every connection the proxy ever knows (accepted on a listener, or
+   dialled towards a next hop) has the YAML option of its listen entry *)
+Definition wired (c : cfg) (cs : list conn) : Prop :=
+  forall cn, In cn cs -> forall lc, nth_opt (c_listens c) (cn_li cn) = Some lc ->
+             cn_received_support cn = negb (lc_no_received lc).
+Definition grows (li : nat) (rs : bool) (cs cs' : list conn) : Prop :=
+  forall cn, In cn cs' ->
+    (exists cn0, In cn0 cs /\ cn_li cn = cn_li cn0 /\ cn_received_support cn = cn_received_support cn0) \/
+    (cn_li cn = li /\ cn_received_support cn = rs).
+Lemma grows_refl li rs cs : grows li rs cs cs.
+Proof. intros cn H. left. exists cn. repeat split. exact H. Qed.
+Lemma grows_trans li rs a b c : grows li rs a b -> grows li rs b c -> grows li rs a c.
+Proof.
+  intros H1 H2 cn H. destruct (H2 cn H) as [(cn0 & I0 & A & B)|N]; [|right; exact N].
+  destruct (H1 cn0 I0) as [(cn1 & I1 & A1 & B1)|[A1 B1]].
+  - left. exists cn1. repeat split; [exact I1|congruence|congruence].
+  - right. split; congruence.
+Qed.
+Lemma wired_grows c li lc cs cs' : nth_opt (c_listens c) li = Some lc -> wired c cs ->
+  grows li (negb (lc_no_received lc)) cs cs' -> wired c cs'.
+Proof.
+  intros EL W G cn H lc' E'. destruct (G cn H) as [(cn0 & I0 & A & B)|[A B]].
+  - rewrite B. apply (W cn0 I0). rewrite <- A. exact E'.
+  - rewrite A in E'. rewrite EL in E'. injection E' as <-. exact B.
+Qed.
+Lemma close_conn_keeps c cs cn : In cn (close_conn c cs) ->
+  exists cn0, In cn0 cs /\ cn_li cn = cn_li cn0 /\ cn_received_support cn = cn_received_support cn0.
+Proof.
+  induction cs as [|x r IH]; cbn; [intros []|].
+  destruct (Nat.eqb (cn_id x) c).
+  - intros [<-|H].
+    + exists x. repeat split. left. reflexivity.
+    + exists cn. repeat split. right. exact H.
+  - intros [<-|H].
+    + exists x. repeat split. left. reflexivity.
+    + destruct (IH H) as (cn0 & I0 & A & B). exists cn0. repeat split; [right; exact I0|exact A|exact B].
+Qed.
+Lemma close_conn_grows li rs c cs : grows li rs cs (close_conn c cs).
+Proof. intros cn H. left. apply (close_conn_keeps c). exact H. Qed.
+Lemma tcp_client_send_grows n : forall li local rs id b p cs w outs p' cs' w' outs' ok,
+  tcp_client_send n li local rs id b p cs w outs = (p', cs', w', outs', ok) -> grows li rs cs cs'.
+Proof.
+  induction n as [|n IH]; intros li local rs id b p cs w outs p' cs' w' outs' ok; cbn [tcp_client_send].
+  - intros H. injection H as <- <- <- <- <-. apply grows_refl.
+  - destruct (find_client id (ps_clients p)) as [cl|]; [|intros H; injection H as <- <- <- <- <-; apply grows_refl].
+    destruct (tc_cached cl) as [c|].
+    + destruct (conn_open cs c); [intros H; injection H as <- <- <- <- <-; apply grows_refl|].
+      intros H. exact (IH _ _ _ _ _ _ _ _ _ _ _ _ _ _ H).
+    + destruct (existsb _ (w_tcp_listeners w)); [|intros H; injection H as <- <- <- <- <-; apply grows_refl].
+      intros H. apply IH in H. eapply grows_trans; [|exact H].
+      intros cn I. apply in_app_or in I. destruct I as [I|[<-|[]]].
+      * left. exists cn. repeat split. exact I.
+      * right. split; reflexivity.
+Qed.
+Lemma failover_send_grows li local rs f b p cs w p' cs' w' outs ok f' :
+  failover_send li local rs f b p cs w = (p', cs', w', outs, ok, f') -> grows li rs cs cs'.
+Proof.
+  unfold failover_send.
+  assert (SEC : forall f1 p' cs' w' outs0 outs ok f',
+            match fo_sec f1 with
+            | Some id => let '(p2, cs2, w2, outs2, ok) := tcp_client_send 2 li local rs id b p cs w outs0 in
+                         (p2, cs2, w2, outs2, ok, f1)
+            | None => (p, cs, w, outs0, false, f1)
+            end = (p', cs', w', outs, ok, f') -> grows li rs cs cs').
+  { intros f1 p2 cs2 w2 outs0 outs2 ok2 f2. destruct (fo_sec f1) as [id|].
+    - destruct (tcp_client_send 2 li local rs id b p cs w outs0) as [[[[p3 cs3] w3] outs3] ok3] eqn:E.
+      intros H. injection H as <- <- <- <- <- <-. exact (tcp_client_send_grows _ _ _ _ _ _ _ _ _ _ _ _ _ _ _ E).
+    - intros H. injection H as <- <- <- <- <- <-. apply grows_refl. }
+  destruct (fo_pri f) as [[ip port|ip port|c ex]|].
+  - destruct (fits_datagram b); [intros H; injection H as <- <- <- <- <- <-; apply grows_refl|apply SEC].
+  - destruct (fits_datagram b); [intros H; injection H as <- <- <- <- <- <-; apply grows_refl|apply SEC].
+  - destruct (conn_open cs c); [intros H; injection H as <- <- <- <- <- <-; apply grows_refl|apply SEC].
+  - apply SEC.
+Qed.
+Lemma send_message_grows e host port tr m x :
+  grows (e_li e) (pa_received_support (wire_proxy (e_lc e))) (x_conns x) (x_conns (fst (send_message e host port tr m x))).
+Proof.
+  unfold send_message. destruct (mtry s_client_transaction m) as [m1 tid].
+  destruct (get_transport _ _ _ _ _ _) as [p1 rkey].
+  destruct rkey as [key| |]; try apply grows_refl.
+  match goal with |- context [alookup key (ps_table ?p2)] => set (P2 := p2) end.
+  destruct (alookup key (ps_table P2)) as [f|]; [|apply grows_refl].
+  match goal with |- context [failover_send ?a ?b ?c ?d ?e ?f ?g ?h] =>
+    destruct (failover_send a b c d e f g h) as [[[[[p4 cs] w] outs] ok] f'] eqn:EF end.
+  cbn. exact (failover_send_grows _ _ _ _ _ _ _ _ _ _ _ _ _ _ EF).
+Qed.
+Ltac send_grows :=
+  match goal with |- grows _ _ _ (x_conns (fst (send_message ?e ?h ?p ?t ?m ?X))) =>
+    exact (send_message_grows e h p t m X) end.
+Lemma handle_message_grows e from m x :
+  grows (e_li e) (pa_received_support (wire_proxy (e_lc e))) (x_conns x) (x_conns (fst (handle_message e from m x))).
+Proof.
+  unfold handle_message. destruct (is_request m).
+  - destruct (next_request_hop _ _ m) as [m1 r].
+    assert (BK : grows (e_li e) (pa_received_support (wire_proxy (e_lc e))) (x_conns x)
+                   (x_conns (fst (if is_my_message (new_my_name (c_name (e_cfg e))) from m1
+                                  then send_to_backend e m1 x else (x, m1))))).
+    { destruct (is_my_message _ from m1); [|apply grows_refl].
+      destruct (send_to_backend_outs e m1 x) as (outs & _ & _ & ->). apply grows_refl. }
+    destruct r as [[[host port] tr]| |]; try exact BK. send_grows.
+  - destruct (mtry s_pop_via m) as [m1 r1]. destruct (mtry next_response_hop m1) as [m2 hop].
+    destruct (mtry s_get_method m2) as [m3 ometh].
+    destruct hop as [[[[h p] t]|]| |]; try apply grows_refl.
+    destruct ometh as [[meth|]| |]; try send_grows.
+    destruct (beq meth (s2b "SUBSCRIBE")); [|send_grows].
+    destruct (alookup _ (ps_backends (x_p x))); [|send_grows].
+    destruct (mtry s_get_dialog m3) as [m' od]. destruct od as [[d|]| |]; send_grows.
+Qed.
+Lemma process_message_grows e peer port from rs tcp m0 x x' :
+  process_message e peer port from rs tcp m0 x = Ok x' ->
+  grows (e_li e) (pa_received_support (wire_proxy (e_lc e))) (x_conns x) (x_conns x').
+Proof.
+  unfold process_message.
+  destruct (if (is_request m0 && _)%bool then _ else _) as [m1 l1].
+  destruct (match tcp with Some c => _ | None => _ end) as [m3 rp].
+  destruct rp as [p1| |]; try discriminate. cbv zeta.
+  destruct (if is_response _ then _ else _) as [m5 p2].
+  intros H. injection H as <-.
+  match goal with |- grows _ _ _ (x_conns (fst (handle_message ?e ?f ?m ?X))) =>
+    exact (handle_message_grows e f m X) end.
+Qed.
+Lemma tcp_messages_grows f : forall e c s x x', tcp_messages f e c s x = Ok x' ->
+  grows (e_li e) (pa_received_support (wire_proxy (e_lc e))) (x_conns x) (x_conns x').
+Proof.
+  induction f as [|f IH]; intros e c s x x'; cbn [tcp_messages].
+  - intros H. injection H as <-. apply grows_refl.
+  - destruct (trim_left s); [intros H; injection H as <-; apply grows_refl|].
+    destruct (parse_message s) as [[m rest]| |].
+    + destruct (process_message e _ _ _ _ _ m x) as [x1| |] eqn:EP; try discriminate.
+      intros H. eapply grows_trans; [exact (process_message_grows _ _ _ _ _ _ _ _ _ EP)|exact (IH _ _ _ _ _ H)].
+    + intros H. injection H as <-. cbn. apply close_conn_grows.
+    + intros H. injection H as <-. cbn. apply close_conn_grows.
+Qed.
+
+Theorem C07_wired_step : forall fx c now br st ev st' outs,
+  fx_wiring fx = true -> wired c (st_conns st) ->
+  proxy_step fx c now br st ev = Ok (st', outs) -> wired c (st_conns st').
+Proof.
+  intros fx c now br st ev st' outs Hfx W H. destruct ev as [li src sport data|li src sport|cid data|cid|li a|li a]; cbn [proxy_step] in H.
+  - destruct (nth_opt (c_listens c) li) as [lc|] eqn:EL; [|injection H as <- <-; exact W].
+    destruct (parse_message data) as [[m rest]| |]; try (injection H as <- <-; exact W).
+    unfold run_ctx in H. destruct (nth_p (st_proxies st) li) as [p|]; [|injection H as <- <-; exact W].
+    destruct (process_message _ _ _ _ _ _ _ _) as [x'| |] eqn:EP; try discriminate.
+    injection H as <- <-. cbn [st_conns]. apply process_message_grows in EP.
+    exact (wired_grows c li lc _ _ EL W EP).
+  - destruct (nth_opt (c_listens c) li) as [lc|] eqn:EL; [|injection H as <- <-; exact W].
+    destruct (nth_p (st_proxies st) li) as [p|]; [|injection H as <- <-; exact W].
+    destruct (get_transport _ _ _ _ _ _) as [p1 rk]. injection H as <- <-. cbn [st_conns].
+    intros cn I. apply in_app_or in I. destruct I as [I|[<-|[]]]; [exact (W cn I)|].
+    cbn [cn_li cn_received_support]. intros lc' E'. rewrite EL in E'. injection E' as <-.
+    cbn. rewrite Hfx. reflexivity.
+  - destruct (find _ (st_conns st)) as [cn|]; [|injection H as <- <-; exact W].
+    destruct (cn_open cn); [|injection H as <- <-; exact W].
+    destruct (nth_opt (c_listens c) (cn_li cn)) as [lc|] eqn:EL; [|injection H as <- <-; exact W].
+    unfold run_ctx in H. destruct (nth_p (st_proxies st) (cn_li cn)) as [p|]; [|injection H as <- <-; exact W].
+    destruct (tcp_messages _ _ _ _ _) as [x'| |] eqn:EP; try discriminate.
+    injection H as <- <-. cbn [st_conns]. apply tcp_messages_grows in EP.
+    exact (wired_grows c (cn_li cn) lc _ _ EL W EP).
+  - injection H as <- <-. cbn [st_conns].
+    intros cn I lc E. destruct (close_conn_keeps _ _ _ I) as (cn0 & I0 & A & B).
+    rewrite B. apply (W cn0 I0). rewrite <- A. exact E.
+  - destruct (nth_p (st_proxies st) li) as [p|]; injection H as <- <-; exact W.
+  - destruct (nth_p (st_proxies st) li) as [p|]; [|injection H as <- <-; exact W].
+    destruct (rr_remove a (ps_rr p)) as [r' closed]. injection H as <- <-. exact W.
+Qed.
+
+Theorem C07_wired_init : forall c now tl, wired c (st_conns (init_state c now tl)).
+Proof. intros c now tl cn []. Qed.
+
+(* all states reachable from the initial one, under any events, clocks and branches *)
+Inductive reachable (fx : fixes) (c : cfg) : state -> Prop :=
+| reach_init : forall now tl, reachable fx c (init_state c now tl)
+| reach_step : forall st now br ev st' outs, reachable fx c st ->
+                 proxy_step fx c now br st ev = Ok (st', outs) -> reachable fx c st'.
+Theorem C07_wired_reachable : forall fx c st, fx_wiring fx = true -> reachable fx c st -> wired c (st_conns st).
+Proof.
+  intros fx c st Hfx R. induction R as [now tl|st now br ev st' outs R IH H].
+  - apply C07_wired_init.
+  - exact (C07_wired_step _ _ _ _ _ _ _ _ Hfx IH H).
+Qed.
+
+(* outputs are only ever appended *)
+Lemma handle_message_ext e from m x : exists os, x_outs (fst (handle_message e from m x)) = x_outs x ++ os.
+Proof.
+  destruct (is_request m) eqn:Hq.
+  - destruct (handle_request_outs e from m x Hq) as (os & H & _). exists os. exact H.
+  - unfold handle_message. rewrite Hq.
+    destruct (mtry s_pop_via m) as [m6 r1]. destruct (mtry next_response_hop m6) as [m7 hop].
+    destruct (mtry s_get_method m7) as [m8 ometh].
+    destruct (match hop with Ok _ => _ | Err => _ | Panic => _ end) as [m9 p9].
+    destruct hop as [[[[h pt] tr]|]| |]; try (exists []; symmetry; apply app_nil_r).
+    match goal with |- context [send_message ?e ?h ?p ?t ?m ?X] =>
+      destruct (send_message_out_is e h p t m X) as (os & Ho & _) end. exists os. exact Ho.
+Qed.
+Lemma process_message_ext e peer port from rs tcp m x x' :
+  process_message e peer port from rs tcp m x = Ok x' -> exists os, x_outs x' = x_outs x ++ os.
+Proof.
+  unfold process_message.
+  destruct (if (is_request m && _)%bool then _ else _) as [m1 l1].
+  destruct (match tcp with Some c => _ | None => _ end) as [m3 rp].
+  destruct rp as [p1| |]; try discriminate. cbv zeta.
+  destruct (if is_response _ then _ else _) as [m5 p2]. intros H. injection H as <-.
+  match goal with |- context [handle_message ?e ?f ?m ?X] => exact (handle_message_ext e f m X) end.
+Qed.
+
+(* ====================================================================== Part 6: proxy_step *)
+(* the outputs of one TCP chunk, message by message (generic in the per-message statement Q;
+   reused by C02.v): the messages handled are a prefix of the chunk's message stream *)
+Lemma tcp_messages_outs (Q : message -> list output -> Prop) e c :
+  (forall m x x', process_message e (cn_peer c) (cn_peer_port c) (cn_from c) (cn_received_support c)
+                                  (Some (cn_id c)) m x = Ok x' ->
+                  exists os, x_outs x' = x_outs x ++ os /\ Q m os) ->
+  forall f s x x', tcp_messages f e c s x = Ok x' ->
+  exists oss, x_outs x' = x_outs x ++ List.concat oss /\
+              Forall2 Q (firstn (List.length oss) (parse_stream f s)) oss.
+Proof.
+  intros HQ. induction f as [|f IH]; intros s x x'; cbn [tcp_messages].
+  - intros H. injection H as <-. exists []. split; [symmetry; apply app_nil_r|constructor].
+  - destruct (trim_left s); [intros H; injection H as <-; exists []; split; [symmetry; apply app_nil_r|constructor]|].
+    cbn [parse_stream]. destruct (parse_message s) as [[m rest]| |].
+    + destruct (process_message e _ _ _ _ _ m x) as [x1| |] eqn:EP; try discriminate.
+      intros H. destruct (HQ _ _ _ EP) as (os & H1 & H2). destruct (IH _ _ _ H) as (oss & H3 & H4).
+      exists (os :: oss). split.
+      * cbn [List.concat]. rewrite H3, H1, app_assoc. reflexivity.
+      * cbn [List.length firstn]. constructor; assumption.
+    + intros H. injection H as <-. exists []. split; [symmetry; apply app_nil_r|constructor].
+    + intros H. injection H as <-. exists []. split; [symmetry; apply app_nil_r|constructor].
+Qed.
+
+(* a datagram on listener li: the receiving transport's received-support is what the
+   listener was created with *)
+Theorem C07_step_udp : forall fx c now br st li src sport data lc m rest st' outs,
+  nth_opt (c_listens c) li = Some lc -> parse_message data = Ok (m, rest) -> is_request m = true ->
+  proxy_step fx c now br st (EvUdp li src sport data) = Ok (st', outs) ->
+  Forall (relayed_as br (stamp_hdrs (item_rs_of (fx_wiring fx) lc) src sport (via_hdrs m))) outs.
+Proof.
+  intros fx c now br st li src sport data lc m rest st' outs EL EP Hq H.
+  cbn [proxy_step] in H. rewrite EL, EP in H. unfold run_ctx in H.
+  destruct (nth_p (st_proxies st) li) as [p|]; [|injection H as <- <-; constructor].
+  destruct (process_message _ _ _ _ _ _ _ _) as [x'| |] eqn:E; try discriminate.
+  injection H as <- <-. destruct (C07_pipeline _ _ _ _ _ _ _ _ _ Hq E) as (os & H1 & H2).
+  cbn in H1. rewrite H1. exact H2.
+Qed.
+
+(* the tree as it is now (wiring repaired): the YAML option decides *)
+Corollary C07_step_udp_fixed : forall c now br st li src sport data lc m rest st' outs,
+  nth_opt (c_listens c) li = Some lc -> parse_message data = Ok (m, rest) -> is_request m = true ->
+  proxy_step all_fixed c now br st (EvUdp li src sport data) = Ok (st', outs) ->
+  Forall (relayed_as br (stamp_hdrs (negb (lc_no_received lc)) src sport (via_hdrs m))) outs.
+Proof. intros. eapply (C07_step_udp all_fixed); eassumption. Qed.
+
+(* a chunk on TCP connection cid (accepted or dialled): per message of the chunk, in order *)
+Theorem C07_step_tcp : forall fx c now br st cid data cn lc st' outs,
+  find (fun x => Nat.eqb (cn_id x) cid) (st_conns st) = Some cn ->
+  nth_opt (c_listens c) (cn_li cn) = Some lc ->
+  proxy_step fx c now br st (EvTcpData cid data) = Ok (st', outs) ->
+  exists oss, outs = List.concat oss /\
+    Forall2 (fun m os => is_request m = true ->
+               Forall (relayed_as br (stamp_hdrs (cn_received_support cn) (cn_peer cn) (cn_peer_port cn) (via_hdrs m))) os)
+            (firstn (List.length oss) (parse_stream (S (List.length data)) data)) oss.
+Proof.
+  intros fx c now br st cid data cn lc st' outs EF EL H.
+  cbn [proxy_step] in H. rewrite EF in H.
+  destruct (cn_open cn); [|injection H as <- <-; exists []; split; [reflexivity|constructor]].
+  rewrite EL in H. unfold run_ctx in H.
+  destruct (nth_p (st_proxies st) (cn_li cn)) as [p|]; [|injection H as <- <-; exists []; split; [reflexivity|constructor]].
+  destruct (tcp_messages _ _ _ _ _) as [x'| |] eqn:E; try discriminate.
+  injection H as <- <-.
+  refine (tcp_messages_outs _ _ _ _ _ _ _ _ E).
+  intros m x x1 EP. destruct (is_request m) eqn:Hq.
+  - destruct (C07_pipeline _ _ _ _ _ _ _ _ _ Hq EP) as (os & H1 & H2). exists os. split; [exact H1|]. intros _. exact H2.
+  - destruct (process_message_ext _ _ _ _ _ _ _ _ _ EP) as (os & Ho). exists os. split; [exact Ho|]. discriminate.
+Qed.
+
+(* in every reachable state of the repaired tree the connection's received-support is the
+   YAML option of its listen entry: accepted and dialled connections alike *)
+Corollary C07_step_tcp_fixed : forall c now br st cid data cn lc st' outs,
+  reachable all_fixed c st ->
+  find (fun x => Nat.eqb (cn_id x) cid) (st_conns st) = Some cn ->
+  nth_opt (c_listens c) (cn_li cn) = Some lc ->
+  proxy_step all_fixed c now br st (EvTcpData cid data) = Ok (st', outs) ->
+  exists oss, outs = List.concat oss /\
+    Forall2 (fun m os => is_request m = true ->
+               Forall (relayed_as br (stamp_hdrs (negb (lc_no_received lc)) (cn_peer cn) (cn_peer_port cn) (via_hdrs m))) os)
+            (firstn (List.length oss) (parse_stream (S (List.length data)) data)) oss.
+Proof.
+  intros c now br st cid data cn lc st' outs R EF EL H.
+  assert (W : cn_received_support cn = negb (lc_no_received lc)).
+  { apply (C07_wired_reachable all_fixed c st eq_refl R cn); [|exact EL]. apply find_some in EF. apply EF. }
+  rewrite <- W. eapply C07_step_tcp; eassumption.
+Qed.
+
+(* ====================================================================== Examples (non-vacuity) *)
+Module C07_examples.
+Open Scope string_scope.
+Open Scope list_scope.
+Open Scope Z_scope.
+Definition ex_lc (nr : bool) : listen_cfg :=
+  {| lc_addr := s2b "127.0.0.1"; lc_udp := 5060; lc_tcp := 5060; lc_backends := []; lc_dynamic := false;
+     lc_no_received := nr; lc_def_route := false; lc_must_rr := false |}.
+Definition ex_cfg (nr : bool) : cfg :=
+  {| c_name := s2b "proxy.example"; c_keep_next_hop := false; c_dialog_timeout := 60; c_routes := [];
+     c_hosts := []; c_listens := [ex_lc nr] |}.
+Definition ln (s : string) : bytes := s2b s ++ crlf.
+Definition text (lines : list string) : bytes := flat_map ln lines ++ crlf.
+Definition ex_req (vias : list string) (route : string) : bytes :=
+  text (["INVITE sip:bob@example.com SIP/2.0"] ++ vias ++ [route; "CSeq: 1 INVITE"; "Content-Length: 0"]).
+Definition ex_out (vias : list string) : bytes :=
+  text (["INVITE sip:bob@example.com SIP/2.0"] ++ vias ++ ["CSeq: 1 INVITE"; "Content-Length: 0"]).
+Fixpoint run (fx : fixes) (c : cfg) (st : state) (evs : list event) : list (list output) :=
+  match evs with
+  | [] => []
+  | ev :: r => match proxy_step fx c 0 (s2b "z9hG4bKpx") st ev with
+               | Ok (st', outs) => outs :: run fx c st' r
+               | _ => []
+               end
+  end.
+Definition legacy_wiring : fixes :=
+  {| fx_wiring := false; fx_udp_via_listener := true; fx_indialog_invite := true; fx_bracket_host := true |}.
+Definition rt := "Route: <sip:10.0.0.2:5070;lr>".
+Definition src := s2b "127.0.0.9".
+Definition hop := DUdp (s2b "10.0.0.2") 5070.
+
+(* the packet comes from 127.0.0.9:40000 while the Via names 10.9.9.9:5070 *)
+Example valueless_rport_filled :
+  run all_fixed (ex_cfg false) (init_state (ex_cfg false) 0 [])
+      [EvUdp 0 src 40000 (ex_req ["Via: SIP/2.0/UDP 10.9.9.9:5070;rport;branch=z9hG4bKabc"] rt)] =
+  [[(hop, ex_out ["Via: SIP/2.0/UDP 10.9.9.9:5070;rport=40000;branch=z9hG4bKabc;received=127.0.0.9"])]].
+Proof. vm_compute. reflexivity. Qed.
+
+Example spoofed_received_rport_overwritten :
+  run all_fixed (ex_cfg false) (init_state (ex_cfg false) 0 [])
+      [EvUdp 0 src 40000 (ex_req ["Via: SIP/2.0/UDP 10.9.9.9:5070;received=6.6.6.6;rport=1;branch=z9hG4bKabc"] rt)] =
+  [[(hop, ex_out ["Via: SIP/2.0/UDP 10.9.9.9:5070;received=127.0.0.9;rport=40000;branch=z9hG4bKabc"])]].
+Proof. vm_compute. reflexivity. Qed.
+
+Example no_rport_none_added :
+  run all_fixed (ex_cfg false) (init_state (ex_cfg false) 0 [])
+      [EvUdp 0 src 40000 (ex_req ["Via: SIP/2.0/UDP 10.9.9.9:5070;branch=z9hG4bKabc"] rt)] =
+  [[(hop, ex_out ["Via: SIP/2.0/UDP 10.9.9.9:5070;branch=z9hG4bKabc;received=127.0.0.9"])]].
+Proof. vm_compute. reflexivity. Qed.
+
+Example no_received_untouched :
+  run all_fixed (ex_cfg true) (init_state (ex_cfg true) 0 [])
+      [EvUdp 0 src 40000 (ex_req ["Via: SIP/2.0/UDP 10.9.9.9:5070;rport;branch=z9hG4bKabc"] rt)] =
+  [[(hop, ex_out ["Via: SIP/2.0/UDP 10.9.9.9:5070;rport;branch=z9hG4bKabc"])]].
+Proof. vm_compute. reflexivity. Qed.
+
+(* compact / odd-case names, comma list: only the first entry of the first Via header changes *)
+Example layouts :
+  run all_fixed (ex_cfg false) (init_state (ex_cfg false) 0 [])
+      [EvUdp 0 src 40000 (ex_req ["v: SIP/2.0/UDP 10.9.9.9:5070;rport;branch=z9hG4bKabc, SIP/2.0/TCP 10.8.8.8;branch=z9hG4bKdef";
+                                  "VIA: SIP/2.0/UDP 10.7.7.7:5062;branch=z9hG4bKghi"] rt)] =
+  [[(hop, ex_out ["v: SIP/2.0/UDP 10.9.9.9:5070;rport=40000;branch=z9hG4bKabc;received=127.0.0.9,SIP/2.0/TCP 10.8.8.8;branch=z9hG4bKdef";
+                  "VIA: SIP/2.0/UDP 10.7.7.7:5062;branch=z9hG4bKghi"])]].
+Proof. vm_compute. reflexivity. Qed.
+
+(* the proxy's own entry goes on top in a header of its own (next hop learned by the first event) *)
+Example own_via_on_top :
+  run all_fixed (ex_cfg false) (init_state (ex_cfg false) 0 [])
+      [EvUdp 0 (s2b "10.0.0.2") 5070 (ex_req ["Via: SIP/2.0/UDP 10.0.0.2:5070;branch=z9hG4bKq"] "Route: <sip:10.0.0.4;lr>");
+       EvUdp 0 src 40000 (ex_req ["Via: SIP/2.0/UDP 10.9.9.9:5070;rport;branch=z9hG4bKabc"] rt)] =
+  [[(DUdp (s2b "10.0.0.4") 5060, ex_out ["Via: SIP/2.0/UDP 10.0.0.2:5070;branch=z9hG4bKq;received=10.0.0.2"])];
+   [(hop, ex_out ["Via: SIP/2.0/UDP 127.0.0.1:5060;branch=z9hG4bKpx";
+                  "Via: SIP/2.0/UDP 10.9.9.9:5070;rport=40000;branch=z9hG4bKabc;received=127.0.0.9"])]].
+Proof. vm_compute. reflexivity. Qed.
+
+(* TCP: a request on an ACCEPTED connection (0) is relayed over a connection the proxy DIALS
+   (1); a request arriving on the dialled connection is stamped with that peer's address *)
+Example tcp_accepted_and_dialled :
+  run all_fixed (ex_cfg false) (init_state (ex_cfg false) 0 [(s2b "10.0.0.2", 5070)])
+      [EvTcpAccept 0 src 40001;
+       EvTcpData 0 (ex_req ["Via: SIP/2.0/TCP 10.9.9.9:5070;rport;branch=z9hG4bKabc"] "Route: <sip:10.0.0.2:5070;lr;transport=tcp>");
+       EvTcpData 1 (ex_req ["Via: SIP/2.0/TCP 10.5.5.5;rport=7;branch=z9hG4bKxyz"] "Route: <sip:10.0.0.3:5080;lr>")] =
+  [[];
+   [(DDial (s2b "10.0.0.2") 5070 1, []);
+    (DConn 1, ex_out ["Via: SIP/2.0/TCP 10.9.9.9:5070;rport=40001;branch=z9hG4bKabc;received=127.0.0.9"])];
+   [(DUdp (s2b "10.0.0.3") 5080, ex_out ["Via: SIP/2.0/TCP 10.5.5.5;rport=5070;branch=z9hG4bKxyz;received=10.0.0.2"])]].
+Proof. vm_compute. reflexivity. Qed.
+
+(* before the repair of startProxy: `no-received` absent/false in the YAML file, yet the
+   request leaves without received/rport (the listeners were given defRoute = false) *)
+Example C07_wiring_legacy_refuted :
+  lc_no_received (ex_lc false) = false /\
+  item_rs_of (fx_wiring legacy_wiring) (ex_lc false) = false /\
+  run legacy_wiring (ex_cfg false) (init_state (ex_cfg false) 0 [])
+      [EvUdp 0 src 40000 (ex_req ["Via: SIP/2.0/UDP 10.9.9.9:5070;rport;branch=z9hG4bKabc"] rt)] =
+  [[(hop, ex_out ["Via: SIP/2.0/UDP 10.9.9.9:5070;rport;branch=z9hG4bKabc"])]].
+Proof. split; [reflexivity|]. split; [reflexivity|]. vm_compute. reflexivity. Qed.
+
+(* the hypotheses of C07_stamp hold of a decoded datagram: Via spelled "v", second header *)
+Example C07_stamp_ex :
+  exists m rest' pre h post v rest,
+    parse_message (text ["INVITE sip:bob@example.com SIP/2.0"; "Max-Forwards: 70";
+                         "v: SIP/2.0/UDP 10.9.9.9:5070;rport, SIP/2.0/TCP 10.8.8.8"; "Content-Length: 0"]) = Ok (m, rest') /\
+    m_headers m = pre ++ h :: post /\ pre <> [] /\ nomatch VIA pre /\ same_header (h_name h) VIA = true /\
+    hval_vias (h_val h) = Some (v :: rest) /\ rest <> [] /\
+    via_hdrs (fst (s_set_received src 40000 m)) = [Some (stamp src 40000 v :: rest)] /\
+    v_params (stamp src 40000 v) =
+      [{| k_key := s2b "rport"; k_val := s2b "40000" |}; {| k_key := s2b "received"; k_val := src |}].
+Proof.
+  eexists. eexists. eexists [_]. eexists. eexists. eexists. eexists.
+  split; [vm_compute; reflexivity|]. split; [vm_compute; reflexivity|]. split; [discriminate|].
+  split; [vm_compute; reflexivity|]. split; [vm_compute; reflexivity|]. split; [vm_compute; reflexivity|].
+  split; [discriminate|]. split; vm_compute; reflexivity.
+Qed.
+End C07_examples.
+
+(* ====================================================================== closed proofs *)
+Print Assumptions C07_stamp.
+Print Assumptions C07_stamp_params.
+Print Assumptions C07_kv_set_char.
+Print Assumptions C07_pipeline.
+Print Assumptions C07_wiring.
+Print Assumptions C07_wiring_legacy.
+Print Assumptions C07_wired_step.
+Print Assumptions C07_wired_reachable.
+Print Assumptions C07_step_udp.
+Print Assumptions C07_step_udp_fixed.
+Print Assumptions C07_step_tcp.
+Print Assumptions C07_step_tcp_fixed.
+Print Assumptions C07_examples.C07_wiring_legacy_refuted.
